@@ -22,6 +22,10 @@ enum EvKind {
     Write(Vec<(usize, Option<u32>)>),
     /// key index, observed Some(tag)/None=absent
     Read(usize, Option<u32>),
+    /// What a snapshot or an iterator shows for a key (from its first full scan), as a read whose
+    /// interval is the call that CREATED the snapshot / iterator: the view is the state at one
+    /// instant inside that call, so per key the value must be one the register could hold then.
+    ViewRead(usize, Option<u32>),
 }
 
 #[derive(Clone, Debug)]
@@ -71,6 +75,8 @@ struct IterSlotC {
     it: Box<dyn RainDbIterator<Key = Vec<u8>, Error = RainDBError>>,
     first: Option<Dump>,
     pin: Option<(u64, BTreeSet<u64>)>,
+    /// (event number before, after the new_iterator call; op index)
+    open_call: (u64, u64, usize),
 }
 
 fn dump_iter(it: &mut dyn RainDbIterator<Key = Vec<u8>, Error = RainDBError>) -> Result<Dump, RainDBError> {
@@ -152,6 +158,19 @@ fn groups_of(plan: &Plan) -> Vec<Vec<usize>> {
         visit2(c);
     }
     groups.into_iter().filter(|g| g.iter().all(|k| writes_per_key.get(k).map(|s| s.len() == 1 && s.contains(g)).unwrap_or(false))).collect()
+}
+
+fn log_view(log: &Arc<Mutex<ConcLog>>, plan: &Plan, client: usize, idx: usize, inv: u64, ret: u64, dump: &Dump) {
+    let m: BTreeMap<&Vec<u8>, &Vec<u8>> = dump.iter().map(|(k, v)| (k, v)).collect();
+    let mut g = log.lock().unwrap();
+    for (ki, k) in plan.keys.iter().enumerate() {
+        let tag = m.get(k).and_then(|v| tag_of(v));
+        if m.contains_key(k) && tag.is_none() {
+            // a value without a tag (the empty value) is not attributable: no event for this key
+            continue;
+        }
+        g.events.push(Event { client, idx, inv, ret, kind: EvKind::ViewRead(ki, tag) });
+    }
 }
 
 fn client_body(client: usize, plan: Arc<Plan>, db: Arc<DB>, out: Shared, log: Arc<Mutex<ConcLog>>, groups: Arc<Vec<Vec<usize>>>) {
@@ -245,11 +264,14 @@ fn client_body(client: usize, plan: Arc<Plan>, db: Arc<DB>, out: Shared, log: Ar
                 if snaps.contains_key(slot) {
                     continue;
                 }
+                let snap_inv = rt::next_seq();
                 match call("get_snapshot", || db.get_snapshot()) {
                     Called::Ok(s) => {
+                        let snap_ret = rt::next_seq();
                         // dump immediately: this is the state the snapshot must keep showing
                         match call("scan@snapshot", || scan_forward(&db, Some(s.clone()))) {
                             Called::Ok(Ok(first)) => {
+                                log_view(&log, &plan, client, idx, snap_inv, snap_ret, &first);
                                 check_groups(&out, &plan, &first, "snapshot scan", idx, &groups);
                                 with_out(&out, |o| o.stats.snap_reads += 1);
                                 snaps.insert(*slot, SnapSlot { snap: s, first });
@@ -354,7 +376,8 @@ fn client_body(client: usize, plan: Arc<Plan>, db: Arc<DB>, out: Shared, log: Ar
                                 None
                             }
                         };
-                        iters.insert(*slot, IterSlotC { it: Box::new(it), first: None, pin });
+                        let opened = rt::next_seq();
+                        iters.insert(*slot, IterSlotC { it: Box::new(it), first: None, pin, open_call: (start, opened, idx) });
                     }
                     Called::Ok(Err(e)) => read_error(&out, &["C03"], "new_iterator", &e, idx),
                     Called::Panicked { .. } => dead = true,
@@ -368,7 +391,10 @@ fn client_body(client: usize, plan: Arc<Plan>, db: Arc<DB>, out: Shared, log: Ar
                     Called::Ok(Ok(d)) => {
                         check_groups(&out, &plan, &d, "iterator scan", idx, &groups);
                         match &s.first {
-                            None => s.first = Some(d),
+                            None => {
+                                log_view(&log, &plan, client, s.open_call.2, s.open_call.0, s.open_call.1, &d);
+                                s.first = Some(d)
+                            }
                             Some(first) => {
                                 if *first != d {
                                     let want: Kv = first.iter().cloned().collect();
@@ -611,6 +637,7 @@ pub fn body(case: &Case, out: &Shared) {
     if healthy {
         let log = log.lock().unwrap();
         let mut per_key: BTreeMap<usize, Vec<RegEvent>> = BTreeMap::new();
+        let mut per_key_views: BTreeMap<usize, Vec<RegEvent>> = BTreeMap::new();
         for e in &log.events {
             match &e.kind {
                 EvKind::Write(items) => {
@@ -624,6 +651,7 @@ pub fn body(case: &Case, out: &Shared) {
                     }
                 }
                 EvKind::Read(k, v) => per_key.entry(*k).or_default().push(RegEvent { inv: e.inv, ret: e.ret, op: RegOp::Read(*v), who: (e.client, e.idx) }),
+                EvKind::ViewRead(k, v) => per_key_views.entry(*k).or_default().push(RegEvent { inv: e.inv, ret: e.ret, op: RegOp::Read(*v), who: (e.client, e.idx) }),
             }
         }
         let budget = case.params.get("lin_budget").copied().unwrap_or(400_000) as usize;
@@ -638,8 +666,29 @@ pub fn body(case: &Case, out: &Shared) {
                 continue;
             }
             let initial = model.get(&k).copied().flatten();
+            let views = per_key_views.remove(&k).unwrap_or_default();
             match check_register(initial, &evs, budget) {
-                LinResult::Ok => with_out(out, |o| o.stats.lin_checked += 1),
+                LinResult::Ok => {
+                    with_out(out, |o| o.stats.lin_checked += 1);
+                    if !views.is_empty() {
+                        // the same history plus what snapshots and iterators showed for this key,
+                        // each as a read inside the call that created the view
+                        let mut all = evs.clone();
+                        all.extend(views.iter().cloned());
+                        match check_register(initial, &all, budget) {
+                            LinResult::Ok => with_out(out, |o| o.stats.bump("view_histories_checked", 1)),
+                            LinResult::Unchecked => with_out(out, |o| o.stats.bump("view_histories_unchecked", 1)),
+                            LinResult::Violation(d) => {
+                                let mut sorted = all.clone();
+                                sorted.sort_by_key(|e| e.inv);
+                                let hist: Vec<String> = sorted.iter().take(48).map(|e| format!("c{}#{} {:?} [{}..{}]", e.who.0 as i64, e.who.1 as i64, e.op, e.inv, if e.ret == u64::MAX { 0 } else { e.ret })).collect();
+                                let views_s: Vec<String> = views.iter().map(|e| format!("c{}#{} {:?} [{}..{}]", e.who.0, e.who.1, e.op, e.inv, e.ret)).collect();
+                                push_finding(out, Finding::new(&["C03", "C05"], "view-not-at-one-instant", "", format!("key {} (initial {:?}): the gets and writes alone are linearizable, but not together with what a snapshot / iterator showed for the key, taken as a read inside the call that created it ({}): {} | history: {}", show_key(&plan.keys[k]), initial, views_s.join(", "), d, hist.join("; ")), None));
+                                break;
+                            }
+                        }
+                    }
+                }
                 LinResult::Unchecked => with_out(out, |o| o.stats.lin_unchecked += 1),
                 LinResult::Violation(d) => {
                     with_out(out, |o| o.stats.lin_checked += 1);
